@@ -100,7 +100,7 @@ PROPS = {
     "C02": {
         "property_module": "AutosarVerif.Properties.C02",
         "modules": ["AutosarVerif.Properties.C02"],
-        "closure": ["AutosarVerif.Properties.C02", "AutosarVerif.Lemmas.Lexer", 'AutosarVerif.Lemmas.ParserTotal'],
+        "closure": ["AutosarVerif.Properties.C02", "AutosarVerif.Lemmas.Lexer", 'AutosarVerif.Lemmas.ParserTotal', 'AutosarVerif.Lemmas.ParserLines'],
         "scenario": "c02",
         "rule": "inputs: every string up to length 5 (thorough: 6) over the 16-symbol XML token alphabet `<>/?!-=\"'&;#x space newline A`; "
                 "token strings after a valid xml header, inside a valid AUTOSAR root element and inside `<?xml … ?>`; a valid document, "
